@@ -1273,6 +1273,99 @@ func batcherDirect(r *vx.Run) {
 	}
 }
 
+type previewFail struct {
+	f    failure
+	in   map[string]any
+	size int
+}
+
+// batcherShutdown: the real Batcher closed (graceful shutdown, Commander.Close) while one batch is inside the store call
+// and further entries are queued behind it: an entry's completion callback (= the acknowledgement of its request) may
+// fire only if the store call carrying it returned; entries still queued are never acknowledged.
+func batcherShutdown(r *vx.Run) {
+	for maxBatch := 1; maxBatch <= 3; maxBatch++ {
+		for n := 2; n <= 6; n++ {
+			var mu sync.Mutex
+			var batches [][]int
+			returned := map[int]bool{}
+			cbCount := map[int]int{}
+			early := ""
+			gate := make(chan struct{})
+			entered := make(chan struct{}, 16)
+			b := batching.NewBatcher[int](func(ctx context.Context, items ...int) error {
+				mu.Lock()
+				batches = append(batches, append([]int{}, items...))
+				mu.Unlock()
+				entered <- struct{}{}
+				<-gate
+				mu.Lock()
+				for _, it := range items {
+					returned[it] = true
+				}
+				mu.Unlock()
+				return nil
+			}, 1, maxBatch)
+			ctx, cancel := context.WithCancel(context.Background())
+			go func() {
+				defer func() { _ = recover() }()
+				b.Run(ctx)
+			}()
+			cb := func(i int) func() {
+				return func() {
+					mu.Lock()
+					cbCount[i]++
+					if !returned[i] {
+						early = fmt.Sprintf("callback of item %d fired although no store call carrying it returned", i)
+					}
+					mu.Unlock()
+				}
+			}
+			b.Append(1, cb(1))
+			select {
+			case <-entered:
+			case <-time.After(2 * time.Second):
+			}
+			for i := 2; i <= n; i++ {
+				b.Append(i, cb(i)) // queued behind the batch in flight
+			}
+			closed := make(chan struct{})
+			go func() {
+				defer func() { _ = recover() }()
+				b.Close()
+				close(closed)
+			}()
+			time.Sleep(3 * time.Millisecond)
+			// let every store call that is (or gets) entered return
+			deadline := time.Now().Add(2 * time.Second)
+		loop:
+			for time.Now().Before(deadline) {
+				select {
+				case gate <- struct{}{}:
+				case <-closed:
+					break loop
+				case <-time.After(200 * time.Microsecond):
+				}
+			}
+			time.Sleep(5 * time.Millisecond)
+			cancel()
+			mu.Lock()
+			in := map[string]any{"max_batch_size": maxBatch, "items": n, "batches": batches, "shutdown": "close while the first batch is in the store call"}
+			if early != "" {
+				r.FailP("C06", "batcher:shutdown-acknowledges-an-entry-never-persisted", in, early, n)
+			}
+			for i := 1; i <= n; i++ {
+				if cbCount[i] > 1 {
+					r.FailP("C06", "batcher:completion-callback-not-fired-exactly-once", in, fmt.Sprintf("callback of item %d fired %d times", i, cbCount[i]), n)
+					break
+				}
+			}
+			mu.Unlock()
+			r.Count("batcher-shutdown")
+			r.Case("", in, fmt.Sprint("batcher-shutdown", maxBatch, n), true)
+		}
+	}
+}
+
 func main() {
 	r := vx.Start("C02", "engine")
 	r.Cases("From FL Require Import Engine.Corr.\nClose Scope Z_scope.\nOpen Scope nat_scope.\n", "ecase", 120)
@@ -1315,6 +1408,11 @@ func main() {
 			quotaDFS, quotaRandom = 400, 200
 		}
 		g := vx.NewRng(r.Seed + uint64(len(sc.Name)))
+		hasDry := false
+		for _, q := range sc.Reqs {
+			hasDry = hasDry || q.DryRun
+		}
+		var withPreview []previewFail
 		exploreD := func(prefix []int, script []string, quota *int) Exec {
 			ex := runDirected(sc, prefix, script, false)
 			n++
@@ -1340,7 +1438,11 @@ func main() {
 				return ex
 			}
 			for _, f := range oracles(sc, ex) {
-				r.FailP(f.prop, f.sig, map[string]any{"scenario": sc, "schedule": ex.Schedule, "choices": ex.Choices, "responses": ex.Responses}, f.detail, len(ex.Schedule))
+				in := map[string]any{"scenario": sc, "schedule": ex.Schedule, "choices": ex.Choices, "responses": ex.Responses}
+				r.FailP(f.prop, f.sig, in, f.detail, len(ex.Schedule))
+				if hasDry && f.prop != "C14" {
+					withPreview = append(withPreview, previewFail{f, in, len(ex.Schedule)})
+				}
 			}
 			r.Count("scenario:" + sc.Name)
 			if os.Getenv("VERIF_DEBUG") != "" {
@@ -1388,10 +1490,42 @@ func main() {
 				exploreD(rp, nil, &quotaRandom)
 			}
 		}
+		if len(withPreview) > 0 {
+			// C14: something went wrong in executions that contain a preview. Control: the same scenario without its
+			// previews. What also goes wrong there is not the preview's doing; what goes wrong only with the preview is.
+			ctl := sc
+			ctl.Name, ctl.Directed, ctl.Reqs = sc.Name+" (control: previews removed)", nil, nil
+			for _, q := range sc.Reqs {
+				if !q.DryRun {
+					ctl.Reqs = append(ctl.Reqs, q)
+				}
+			}
+			ctlSigs := map[string]bool{}
+			cp := []int{}
+			for k := 0; k < 250 && cp != nil && len(ctl.Reqs) > 0; k++ {
+				ex := run(ctl, cp, false)
+				if ex.Fault != "" {
+					break
+				}
+				for _, f := range oracles(ctl, ex) {
+					ctlSigs[f.prop+":"+f.sig] = true
+				}
+				cp = next(ex.Schedule, ex.Counts)
+			}
+			reported := map[string]bool{}
+			for _, pf := range withPreview {
+				key := pf.f.prop + ":" + pf.f.sig
+				if !ctlSigs[key] && !reported[key] {
+					reported[key] = true
+					r.FailP("C14", "preview-enables:"+key, pf.in, "only with the preview in the execution (not in any of the explored executions of the same requests without it): "+pf.f.detail, pf.size)
+				}
+			}
+		}
 		r.Sum.Notes = append(r.Sum.Notes, fmt.Sprintf("%s: %d schedules, %d harness faults, exhaustive=%v", sc.Name, n, faults, exhaustive))
 	}
 	if only == "" || only == "batcher-direct" {
 		batcherDirect(r)
+		batcherShutdown(r)
 	}
 	if only == "" || only == "preview-differential" {
 		n := 120
